@@ -15,8 +15,6 @@ import (
 	"github.com/ipfs/go-log/v2"
 	"github.com/libp2p/go-libp2p-kad-dht/provider/internal/keyspace"
 	mh "github.com/multiformats/go-multihash"
-
-	"github.com/ipfs/go-libdht/kad/key/bit256"
 )
 
 var ErrResetInProgress = errors.New("reset already in progress")
@@ -462,14 +460,16 @@ func (s *ResettableKeystore) altPutChecked(ctx context.Context, keys []mh.Multih
 	if err != nil {
 		return err
 	}
-	seen := make(map[bit256.Key]struct{}, len(keys))
+	// bit256.Key wraps a pointer, so it cannot be used to detect equal keys.
+	seen := make(map[string]struct{}, len(keys))
 	var added int64
 	for _, h := range keys {
 		k := keyspace.MhToBit256(h)
-		if _, ok := seen[k]; ok {
+		kStr := string(keyspace.KeyToBytes(k))
+		if _, ok := seen[kStr]; ok {
 			continue
 		}
-		seen[k] = struct{}{}
+		seen[kStr] = struct{}{}
 		dsk := dsKey(k, s.prefixBits)
 		ok, err := s.altDs.Has(ctx, dsk)
 		if err != nil {
